@@ -199,7 +199,9 @@ type c20Case struct {
 
 // c20Grid runs the full version x flag grid of every table for one magic. fail
 // reports a violation and returns true when the key is a known finding.
-func c20Grid(rec *evi.Recorder, magic uint32, fail func(key, what string, cs any) bool) {
+// deep adds the failure-path / history / aliasing probes to every cell (they cost
+// several extra codec calls per cell, so rapid cases enable them for 1 case in 8).
+func c20Grid(rec *evi.Recorder, magic uint32, deep bool, fail func(key, what string, cs any) bool) {
 	for _, tb := range vTables {
 		list := tb.list()
 		for fl := 0; fl < 8; fl++ {
@@ -215,6 +217,9 @@ func c20Grid(rec *evi.Recorder, magic uint32, fail func(key, what string, cs any
 			}
 			firstRaw := map[uint16]string{}
 			for _, v := range list {
+				if !deep {
+					break
+				}
 				if g, ok := vm[v]; ok && g != nil {
 					if r, err := cbor.Encode(&g); err == nil {
 						firstRaw[v] = string(r)
@@ -224,26 +229,34 @@ func c20Grid(rec *evi.Recorder, magic uint32, fail func(key, what string, cs any
 			// history independence of the generated maps: a second map generated with
 			// other arguments (and then emptied by its caller) must not change the first,
 			// and the same arguments give the same data again
-			other := tb.gen(^magic, !d, !p, !q)
-			for k := range other {
-				delete(other, k)
-			}
-			again := tb.gen(magic, d, p, q)
-			rec.Eval()
-			for _, v := range list {
-				for which, m := range map[string]protocol.ProtocolVersionMap{"map-aliased": vm, "map-unstable": again} {
-					g, ok := m[v]
-					var r []byte
-					if ok && g != nil {
-						r, _ = cbor.Encode(&g)
-					}
-					if want, had := firstRaw[v]; had && string(r) != want {
-						fail(fmt.Sprintf("%s:%s:v%d", which, tb.name, v),
-							fmt.Sprintf("%s v%d: version data generated for (magic %d, %v,%v,%v) read %x; after another map was generated with other arguments and emptied by its caller, %s reads %x",
-								tb.name, v, magic, d, p, q, want, map[string]string{"map-aliased": "the same map", "map-unstable": "a map generated again with the same arguments"}[which], r),
-							c20Case{tb.name, v, magic, d, p, q, ""})
+			var otherKeep protocol.ProtocolVersionMap
+			if deep {
+				rec.Eval()
+				rec.Class("deep_cell_groups")
+				cmp := func(which, whose string, m protocol.ProtocolVersionMap) {
+					for _, v := range list {
+						g, ok := m[v]
+						var r []byte
+						if ok && g != nil {
+							r, _ = cbor.Encode(&g)
+						}
+						if want, had := firstRaw[v]; had && string(r) != want {
+							fail(fmt.Sprintf("%s:%s", which, tb.name),
+								fmt.Sprintf("%s v%d: version data generated for (magic %d, %v,%v,%v) read %x; after another map was generated with other arguments and emptied by its caller, %s reads %x",
+									tb.name, v, magic, d, p, q, want, whose, r),
+								c20Case{tb.name, v, magic, d, p, q, ""})
+						}
 					}
 				}
+				otherKeep = tb.gen(^magic, !d, !p, !q)
+				cmp("map-aliased", "the same map (after a second map was generated)", vm)
+				other := tb.gen(^magic, !d, !p, !q)
+				for k := range other {
+					delete(other, k)
+				}
+				cmp("map-aliased", "the same map", vm)
+				cmp("map-unstable", "a map generated again with the same arguments", tb.gen(magic, d, p, q))
+				cmp("map-aliased", "the same map (after the same arguments were used again)", vm)
 			}
 			for _, v := range list {
 				cs := c20Case{tb.name, v, magic, d, p, q, ""}
@@ -272,36 +285,21 @@ func c20Grid(rec *evi.Recorder, magic uint32, fail func(key, what string, cs any
 					fail(fmt.Sprintf("nodecoder:%s:v%d", tb.name, v), "GetProtocolVersion(v) has no decoder", cs)
 					continue
 				}
-				dec0, err0 := pv.NewVersionDataFromCborFunc(raw)
-				// failure path and history: the same decoder is first handed input it must
-				// refuse (empty, truncated, the other family's shape) and a *different* legal
-				// value, then the legal bytes again from a scratch buffer that is wiped afterwards
-				_, _ = pv.NewVersionDataFromCborFunc(nil)
-				_, _ = pv.NewVersionDataFromCborFunc(raw[:len(raw)-1])
-				if raw[0]&0xe0 == 0x80 {
-					_, _ = pv.NewVersionDataFromCborFunc([]byte{0x1a, 0xff, 0xff, 0xff, 0xff})
-				} else {
-					_, _ = pv.NewVersionDataFromCborFunc([]byte{0x82, 0x1a, 0xff, 0xff, 0xff, 0xff, 0xf5})
+				var dec0 protocol.VersionData
+				var err0 error
+				if deep {
+					dec0, err0 = pv.NewVersionDataFromCborFunc(raw)
 				}
-				if og, ok := tb.gen(^magic, !d, !p, !q)[v]; ok && og != nil {
-					if oraw, oerr := cbor.Encode(&og); oerr == nil {
-						_, _ = pv.NewVersionDataFromCborFunc(oraw)
-					}
-				}
-				buf := append([]byte(nil), raw...)
-				dec, err := pv.NewVersionDataFromCborFunc(buf)
-				for i := range buf {
-					buf[i] = 0xff
-				}
+				dec, err := c20DecodeAfterHistory(pv, raw, otherKeepOrNil(deep, otherKeep, v))
 				if err != nil || dec == nil {
 					fail(fmt.Sprintf("decode:%s:v%d", tb.name, v),
 						fmt.Sprintf("version %d's own decoder rejects the generated data %x: %v", v, raw, err), cs)
 					continue
 				}
-				if err0 != nil || dec0 == nil || dec0.NetworkMagic() != dec.NetworkMagic() || dec0.DiffusionMode() != dec.DiffusionMode() ||
-					dec0.PeerSharing() != dec.PeerSharing() || dec0.Query() != dec.Query() {
+				if deep && (err0 != nil || dec0 == nil || dec0.NetworkMagic() != dec.NetworkMagic() || dec0.DiffusionMode() != dec.DiffusionMode() ||
+					dec0.PeerSharing() != dec.PeerSharing() || dec0.Query() != dec.Query()) {
 					fail(fmt.Sprintf("decoder-history:%s:v%d", tb.name, v),
-						fmt.Sprintf("%s v%d: decoding %x gave %+v (err %v) at first and %+v after the decoder had refused malformed input and decoded another value", tb.name, v, raw, dec0, err0, dec), cs)
+						fmt.Sprintf("%s v%d: decoding %x gave %+v (err %v) at first and %+v after the decoder had refused malformed input and decoded another value (from a buffer overwritten afterwards)", tb.name, v, raw, dec0, err0, dec), cs)
 				}
 				c := carriedBy(tb.fam, v)
 				// (1) literal statement: decoded == generated on all four accessors
@@ -334,6 +332,39 @@ func c20Grid(rec *evi.Recorder, magic uint32, fail func(key, what string, cs any
 			}
 		}
 	}
+}
+
+func otherKeepOrNil(deep bool, m protocol.ProtocolVersionMap, v uint16) protocol.VersionData {
+	if !deep {
+		return nil
+	}
+	return m[v]
+}
+
+// c20DecodeAfterHistory decodes raw with the version's own decoder. With a
+// non-nil other value it first hands the decoder input it must refuse (empty,
+// truncated, the other family's shape) and that different legal value, and decodes
+// from a scratch buffer that is overwritten before the result is used.
+func c20DecodeAfterHistory(pv protocol.ProtocolVersion, raw []byte, other protocol.VersionData) (protocol.VersionData, error) {
+	if other == nil {
+		return pv.NewVersionDataFromCborFunc(raw)
+	}
+	_, _ = pv.NewVersionDataFromCborFunc(nil)
+	_, _ = pv.NewVersionDataFromCborFunc(raw[:len(raw)-1])
+	if raw[0]&0xe0 == 0x80 {
+		_, _ = pv.NewVersionDataFromCborFunc([]byte{0x1a, 0xff, 0xff, 0xff, 0xff})
+	} else {
+		_, _ = pv.NewVersionDataFromCborFunc([]byte{0x82, 0x1a, 0xff, 0xff, 0xff, 0xff, 0xf5})
+	}
+	if oraw, oerr := cbor.Encode(&other); oerr == nil {
+		_, _ = pv.NewVersionDataFromCborFunc(oraw)
+	}
+	buf := append([]byte(nil), raw...)
+	dec, err := pv.NewVersionDataFromCborFunc(buf)
+	for i := range buf {
+		buf[i] = 0xff
+	}
+	return dec, err
 }
 
 func TestC20(t *testing.T) {
@@ -437,7 +468,7 @@ func TestC20(t *testing.T) {
 	vfail := func(key, what string, cs any) bool { return rec.Violation(key, what, cs) }
 	fixed := []uint32{0, 1, 2, 23, 24, 255, 256, 65535, 65536, 764824073, 1097911063, 2912307721, 3141592, 1<<31 - 1, 1 << 31, 1<<32 - 1}
 	for _, m := range fixed {
-		c20Grid(rec, m, vfail)
+		c20Grid(rec, m, true, vfail)
 	}
 	rec.SetExtra("fixed_magics", len(fixed))
 	rec.SetExhaustive(true)
@@ -513,6 +544,7 @@ func TestC20(t *testing.T) {
 			}
 		}
 		rec.NonTrivial(fmt.Sprintf("mutation-history %v magic=%d", hist, magic), map[string]any{"history": hist, "magic": magic})
-		c20Grid(rec, magic, func(key, what string, cs any) bool { return rec.Fail(rt, key, what, cs) })
+		deep := rapid.Bool().Draw(rt, "deep1") && rapid.Bool().Draw(rt, "deep2") && rapid.Bool().Draw(rt, "deep3")
+		c20Grid(rec, magic, deep, func(key, what string, cs any) bool { return rec.Fail(rt, key, what, cs) })
 	})
 }
